@@ -47,6 +47,7 @@ KINDS: Dict[str, KindInfo] = {k.name: k for k in [
     KindInfo("TAGATTRDICT", dict, repo="TagAttrDict"),
     KindInfo("JSXATTRDICT", dict, repo="JSXTagAttrDict"),
     KindInfo("HTMLDOC", object, repo="HTMLDocument"),
+    KindInfo("HTMLTEXTDOC", object, repo="HTMLTextDocument"),
     KindInfo("REPR_ONLY", object, methods=("_repr_html_",)),
     KindInfo("TAGIFIABLE_ONLY", object, methods=("tagify",)),
     KindInfo("TAGIFIABLE_REPR", object, methods=("tagify", "_repr_html_")),
@@ -74,7 +75,7 @@ NODE_KINDS: FrozenSet[str] = frozenset(
     {"STR", "JSXEXPR", "HTMLSTR", "TAG", "META", "HTMLDEP", "JSXTAG", "REPR_ONLY", "TAGIFIABLE_ONLY",
      "TAGIFIABLE_REPR", "TAGLIST"})
 META_KINDS: FrozenSet[str] = frozenset({"META", "HTMLDEP"})
-ANY_VALUE_KINDS: FrozenSet[str] = ALL_KINDS - {"TAGATTRDICT", "JSXATTRDICT", "HTMLDOC", "CALLABLE", "VERSION", "BYTES", "SLICE"}
+ANY_VALUE_KINDS: FrozenSet[str] = ALL_KINDS - {"TAGATTRDICT", "JSXATTRDICT", "HTMLDOC", "HTMLTEXTDOC", "CALLABLE", "VERSION", "BYTES", "SLICE"}
 
 _ABCS = {
     "Sequence": collections.abc.Sequence, "Mapping": collections.abc.Mapping, "Iterable": collections.abc.Iterable,
